@@ -18,6 +18,7 @@ import (
 	plugin "github.com/hashicorp/go-plugin"
 	grpctest "github.com/hashicorp/go-plugin/test/grpc"
 	"google.golang.org/grpc"
+	"google.golang.org/grpc/keepalive"
 )
 
 type grpcPair struct {
@@ -536,6 +537,81 @@ func runMuxReaccept(role string) (impl, pred string) {
 	return impl, "ok"
 }
 
+// runMuxReconnect: a brokered connection whose transport is replaced under it (the brokered server ages its connections:
+// keepalive MaxConnectionAge, so gRPC connects again by itself): the second transport of the connection dialled for id 44
+// is served by the listener accepted for 44 as well — not by the main listener, and it does not take another id's place
+// (id 45, established afterwards, is served by its own listener) — and the main connection keeps working.
+func runMuxReconnect(role string) (impl, pred string) {
+	p, err := newGrpcPair(true)
+	if err != nil {
+		return "setup-error", "FAIL:setup"
+	}
+	defer p.close()
+	acceptor, dialler := p.plug, p.host
+	if role == "client" {
+		acceptor, dialler = p.host, p.plug
+	}
+	serveAging := func(id uint32) (stop func(), err error) {
+		ln, err := acceptor.Accept(id)
+		if err != nil {
+			return nil, err
+		}
+		srv := grpc.NewServer(grpc.KeepaliveParams(keepalive.ServerParameters{MaxConnectionAge: 700 * time.Millisecond, MaxConnectionAgeGrace: 300 * time.Millisecond}))
+		grpctest.RegisterPingPongServer(srv, &pingPong{id: id})
+		go srv.Serve(ln)
+		return func() { srv.Stop(); ln.Close() }, nil
+	}
+	res := func(want string, ans string, err error) string {
+		if err != nil || ans != want {
+			return "failed"
+		}
+		return "ok"
+	}
+	stop44, err := serveAging(44)
+	if err != nil {
+		return "accept-err", "FAIL:setup-accept"
+	}
+	defer stop44()
+	time.Sleep(150 * time.Millisecond)
+	ans, conn, err := pingKeep(dialler, 44, 8*time.Second)
+	if conn != nil {
+		defer conn.Close()
+	}
+	first := res("44", ans, err)
+	if first != "ok" {
+		return "first=failed", "FAIL:first-call-failed"
+	}
+	time.Sleep(2200 * time.Millisecond) // the first transport has been retired (age + grace, with gRPC's ±10% jitter)
+	ans, err = pingConn(conn, 6*time.Second)
+	second := res("44", ans, err)
+	// another id, afterwards, accept first
+	stop45, err := serveAging(45)
+	if err != nil {
+		return "accept-err", "FAIL:setup-accept"
+	}
+	defer stop45()
+	time.Sleep(150 * time.Millisecond)
+	ans, conn2, err := pingKeep(dialler, 45, 8*time.Second)
+	if conn2 != nil {
+		defer conn2.Close()
+	}
+	other := res("45", ans, err)
+	mainOK := true
+	if err, hung, pp := withTimeout(5*time.Second, p.client.Ping); err != nil || hung || pp != nil {
+		mainOK = false
+	}
+	impl = fmt.Sprintf("first=%s second=%s other=%s main=%s", first, second, other, b01(mainOK))
+	switch {
+	case second != "ok":
+		return impl, "FAIL:reconnected-transport-not-served-by-its-listener"
+	case other != "ok":
+		return impl, "FAIL:later-id-not-served-by-its-listener"
+	case !mainOK:
+		return impl, "FAIL:main-connection-dead"
+	}
+	return impl, "ok"
+}
+
 // runMuxIdZero: a caller-chosen broker ID of 0 (IDs need not come from NextId) is an ID like any other: its listener is
 // reached, and the main connection keeps working.
 func runMuxIdZero(role string) (impl, pred string) {
@@ -1030,6 +1106,14 @@ func init() {
 		for _, role := range []string{"server", "client"} {
 			impl, pred := runMuxIdZero(role)
 			o.emit("!C08.id-zero role="+role, impl, pred)
+		}
+		// a brokered connection that connects a second time by itself (its server retires transports by age)
+		{
+			rc := []*rd{{role: "server"}, {role: "client"}}
+			parallel(len(rc), len(rc), func(i int) { rc[i].impl, rc[i].pred = runMuxReconnect(rc[i].role) })
+			for _, x := range rc {
+				o.emit("!C08.reconnect role="+x.role, x.impl, x.pred)
+			}
 		}
 		// the same id accepted again after its first brokered server was shut down
 		for _, role := range []string{"server", "client"} {
